@@ -6,7 +6,7 @@ the expected order of witness leaves (public in declaration order, then secret) 
 'conflicting visibility' error.  Output: /verif/src/c07shapes/shapes_gen.go (deterministic)."""
 import itertools, sys
 
-LEAVES = ['V', 'A2', 'SL2', 'SL0', 'SLSL', 'SLA2', 'A2A2']   # Variable, [2]Variable, []Variable len 2 / 0, [][]Variable 2x2, [][2]Variable len 2, [2][2]Variable
+LEAVES = ['V', 'A2', 'SL2', 'SL0', 'SLSL', 'SLA2', 'A2A2', 'A2A3', 'A3A2', 'SLA3']   # Variable, [2]Variable, []Variable len 2 / 0, [][]Variable 2x2, [][2]Variable len 2, [2][2]Variable
 TAGS_LEAF = ['', 'nm', ',public', ',secret', ',inherit', '-', 'nm,public']
 TAGS_NEST = ['', ',public', ',secret', '-']
 # inner struct bodies (list of (kind, tag)); kind may itself be a nested struct ('N', wrapper, body)
@@ -30,7 +30,7 @@ def field_variants(reduced):
         for t in (TAGS_LEAF if not reduced else ['', ',public', '-']):
             if t == ',inherit':
                 continue  # a top-level element has no parent to inherit from (outside the documented domain)
-            if reduced and (l == 'A2A2' or (l in ('SLSL', 'SLA2') and t == '-')):
+            if reduced and (l in ('A2A2', 'A3A2', 'SLA3') or (l == 'A2A3' and t != ',public') or (l in ('SLSL', 'SLA2') and t == '-')):
                 continue
             out.append((l, t))
     for w in WRAP:
@@ -124,7 +124,8 @@ class Gen:
                     conflict = True
             else:
                 gotype = {'V': 'frontend.Variable', 'A2': '[2]frontend.Variable', 'SL2': '[]frontend.Variable', 'SL0': '[]frontend.Variable',
-                          'SLSL': '[][]frontend.Variable', 'SLA2': '[][2]frontend.Variable', 'A2A2': '[2][2]frontend.Variable'}[kind]
+                          'SLSL': '[][]frontend.Variable', 'SLA2': '[][2]frontend.Variable', 'A2A2': '[2][2]frontend.Variable',
+                          'A2A3': '[2][3]frontend.Variable', 'A3A2': '[3][2]frontend.Variable', 'SLA3': '[][3]frontend.Variable'}[kind]
                 lines.append('\t%s %s%s' % (fname, gotype, gtag))
                 p = path + '.' + fname
                 if kind in ('SL2', 'SL0'):
@@ -133,6 +134,8 @@ class Gen:
                     alloc.append('%s = [][]frontend.Variable{make([]frontend.Variable, 2), make([]frontend.Variable, 2)}' % p)
                 if kind == 'SLA2':
                     alloc.append('%s = make([][2]frontend.Variable, 2)' % p)
+                if kind == 'SLA3':
+                    alloc.append('%s = make([][3]frontend.Variable, 2)' % p)
                 if not omitted:
                     v = vis or 'secret'
                     if kind == 'V':
@@ -140,9 +143,10 @@ class Gen:
                     elif kind in ('A2', 'SL2'):
                         leaves.append((p + '[0]', v))
                         leaves.append((p + '[1]', v))
-                    elif kind in ('SLSL', 'SLA2', 'A2A2'):
-                        for a in range(2):
-                            for b in range(2):
+                    elif kind in ('SLSL', 'SLA2', 'A2A2', 'A2A3', 'A3A2', 'SLA3'):
+                        na, nb = {'A2A3': (2, 3), 'A3A2': (3, 2), 'SLA3': (2, 3)}.get(kind, (2, 2))
+                        for a in range(na):
+                            for b in range(nb):
                                 leaves.append((p + '[%d][%d]' % (a, b), v))
         if declare:
             self.types.append('type %s struct {\n%s\n}\n' % (tname, '\n'.join(lines)))
